@@ -482,7 +482,7 @@ def main(ck):
     model_bad = []
 
     # ---- A / B on generated trees
-    bad, stats = tie_trees(ck, 300 if quick else 3000)
+    bad, stats = tie_trees(ck, 300 if quick else 1500)
     model_bad += bad
     ck.note('tie_trees', dict(stats))
 
@@ -520,7 +520,7 @@ def main(ck):
                 data = corpus_data(p)
                 if data is not None: n_data += 1
             jobs.append(('corpus:' + os.path.relpath(p, vlib.REPO), txt, data))
-        n_gen = 260 if quick else 6000
+        n_gen = 260 if quick else 2500
         for i in range(n_gen):
             jobs.append(('gen:%d' % i, G.script(ck.rng), None))
         for s in REGRESSION:
@@ -570,10 +570,9 @@ def main(ck):
     if not proof_ok:
         why = shape_err or ('; '.join(pr['failed'] + pr['forbidden'] + pr['bad_axioms']) or 'build failed')
         # the corpus + generated scripts above ARE the failing-input search for the property
-        if not ck.viol:
+        ck.note('proof_broken', why)
+        if not any(not v[3] for v in ck.viol):      # no concrete failing input was found above
             ck.unproved('C24 proof', 'Props/C24.lean no longer checks: ' + why, pr['log'][-1500:])
-        else:
-            ck.note('proof_broken', why)
 
     ck.trusted('translator harness/translate/expr_grammar.py (transcribes the alternatives of expr/exprComponent)',
                'stand-in parser harness/vtlstub for every textual entry point (prettify, create_ast)',
